@@ -200,46 +200,8 @@ func (c *Ctx) gatedShapeRules(prefix string) {
 			if okAll {
 				r.Ok(rule, "Process:scan-on-every-success", p.InstrPos(scans[0]), "every successful return of Process ran the expiry scan")
 			}
-			// a group is stamped with a POSITIVE expiration: every path to the stamp established
-			// Expiration > 0 or replaced it by the default
-			okPos, nStamp := true, 0
-			for _, pa := range c.enum(rule, proc, PathOpts{}) {
-				stamps := false
-				for _, s := range pa.CallsOn() {
-					if stepCallName(s) == "(time.Time).Add" && s.Depth == 0 {
-						if ci, ok := s.In.(ssa.CallInstruction); ok && pa.TermsAt(s).Of(ci.Common().Args[1]).Is("Field", "Expiration") {
-							stamps = true
-						}
-					}
-				}
-				if !stamps {
-					continue
-				}
-				nStamp++
-				positive := false
-				for _, at := range pa.Atoms {
-					// 0 < Expiration established (x > 0, !(x <= 0) ... all normalise to lt(0, x)), or k <= Expiration for k >= 1
-					if at.Op == "lt" && !at.Neg && at.R.Is("Field", "Expiration") && at.L.Op == "Const" {
-						if k, ok := constInt(at.L.V); ok && k >= 0 {
-							positive = true
-						}
-					}
-				}
-				for _, s := range pa.Steps {
-					if st, ok := s.In.(*ssa.Store); ok {
-						if b, ok := pa.TermsAt(s).Of(st.Addr).IsFieldAddr("Expiration"); ok && b.IsParam("0:w") {
-							positive = true
-						}
-					}
-				}
-				if !positive && okPos {
-					okPos = false
-					r.Bad(rule, "Process:positive-expiration", p.InstrPos(pa.End), "a group is stamped with w.Now().Add(w.Expiration) on a path that neither found the expiration positive nor replaced it: with a negative Expiration the group is born expired and is still gated when the Process call that opened it returns ("+p.PathSummary(pa)+")")
-				}
-			}
-			if okPos {
-				r.Check(nStamp > 0, rule, "Process:positive-expiration", pos, fmt.Sprintf("%d stamping paths, each with a positive or defaulted expiration", nStamp), "no path of Process stamps a group")
-			}
+			// a group is stamped with a POSITIVE expiration (shared with C11.insert)
+			c.rulePositiveExpiration(rule)
 		}
 	}
 }
@@ -415,6 +377,7 @@ func runC11(c *Ctx) {
 		r.Und("C11.lock", "instance-floor", "", fmt.Sprintf("only %d written fields decided (gated, orderedGated, composeFrom, Expiration, gatedEvent.events expected)", n))
 	}
 	c.gatedContainerRules("C11")
+	c.rulePositiveExpiration("C11.insert")
 	c.ruleGatedReset("C11.reset")
 	c.ruleGatedDiscard("C11.discard")
 	c.ruleGatedInsert("C11.insert")
